@@ -50,6 +50,7 @@ def run(rep, props, replay=None):
         t = runq.add(f"mclose {C.qlit(1e-9 * sc * sc)} (cov_sym {m}%nat {C.qmat(X)}) {C.qmat(cov)}")
         todo.append((t, "covariance", kind, X))
         monitors_cov(rep, rng, d, cov, x, X)
+        monitors_history(rep, d, mu, cov, x, X, i)
         for order in (sorted({1, 2, int(rng.integers(3, 11)), min(m, 10), min(max(m - 1, 1), 10)}) if quick else range(1, 11)):
             nv = d.noise_variance(order=order)
             if not np.isfinite(nv):
@@ -115,6 +116,38 @@ def monitors_cov(rep, rng, d, cov, x, X):
         bad.append("depends on the order of the observations")
     if bad:
         rep.violation("covariance: " + "; ".join(bad), {"x": C.hexf(x), "X": C.hexf(X)})
+
+
+def monitors_history(rep, d, mu, cov, x, X, i):
+    """The estimators are functions of the data, not of what was asked of the object before."""
+    import warnings
+    if len(x) < 4:
+        return
+    sc = max(1.0, float(np.max(np.abs(X))))
+    bad = []
+    try:
+        with warnings.catch_warnings():
+            warnings.simplefilter("ignore")
+            if i % 2 == 0:
+                d.mean(method_smoothing="LP", bandwidth=float(x[-1] - x[0]) * 0.6)
+            else:
+                d.mean(method_smoothing="PS", n_segments=2, penalty=50.0)
+    except Exception as e:  # noqa: BLE001
+        rep.notes.append(f"history monitor: smoothed mean raised {type(e).__name__}: {e}"[:160])
+        return
+    cov2 = np.asarray(d.covariance().values)[0]
+    if np.max(np.abs(cov2 - cov)) > 1e-12 * sc * sc:
+        bad.append(f"covariance() after a smoothed mean() differs from covariance() on fresh data by "
+                   f"{np.max(np.abs(cov2 - cov)):.3g}")
+    cen = np.asarray(d.center().values)
+    if np.max(np.abs(cen - (X - mu))) > 1e-12 * sc:
+        bad.append(f"center() after a smoothed mean() is not X - pointwise average (max dev {np.max(np.abs(cen - (X - mu))):.3g})")
+    mu2 = np.asarray(d.mean().values)[0]
+    if np.max(np.abs(mu2 - mu)) > 1e-12 * sc:
+        bad.append("mean() after a smoothed mean() differs from the pointwise average")
+    rep.case(("history", X.tobytes()), kind="history/smoothed-mean-then-plain")
+    if bad:
+        rep.violation("history dependence: " + "; ".join(bad), {"x": C.hexf(x), "X": C.hexf(X), "first": "LP" if i % 2 == 0 else "PS"})
 
 
 def monitors_smoothed_cov(rep, rng, n, quick):
